@@ -135,8 +135,30 @@ func pairingSubjects(name string, r *Rng) []*subject {
 			return p.Interface()
 		}}
 	}
+	// three pairs with a point at infinity in the middle of each list in turn (the variants filter such pairs out: the
+	// caller's slices are not theirs to compact)
+	P3 := reflect.MakeSlice(reflect.SliceOf(g1.AffT), 3, 3)
+	Q3 := reflect.MakeSlice(reflect.SliceOf(g2.AffT), 3, 3)
+	P3.Index(0).Set(P.Index(0))
+	P3.Index(2).Set(P.Index(1))
+	Q3.Index(0).Set(Q.Index(0))
+	Q3.Index(1).Set(g2.MulGen(big.NewInt(3)).Elem())
+	Q3.Index(2).Set(Q.Index(1))
+	P4 := reflect.MakeSlice(reflect.SliceOf(g1.AffT), 3, 3)
+	Q4 := reflect.MakeSlice(reflect.SliceOf(g2.AffT), 3, 3)
+	reflect.Copy(P4, P3)
+	reflect.Copy(Q4, Q3)
+	P4.Index(1).Set(g1.MulGen(big.NewInt(5)).Elem())
+	Q4.Index(1).Set(reflect.Zero(g2.AffT))
+	mkn := func(tag, fn string, args ...reflect.Value) *subject {
+		sb := mk(fn, args...)
+		sb.name = name + "." + fn + "." + tag
+		return sb
+	}
 	return []*subject{mk("Pair", P, Q), mk("MillerLoop", P, Q), mk("PairingCheck", P, Q), mk("PairFixedQ", P, lines), mk("MillerLoopFixedQ", P, lines),
-		mk("PairingCheckFixedQ", P, lines)}
+		mk("PairingCheckFixedQ", P, lines),
+		mkn("infP", "Pair", P3, Q3), mkn("infP", "MillerLoop", P3, Q3), mkn("infP", "PairingCheck", P3, Q3),
+		mkn("infQ", "Pair", P4, Q4), mkn("infQ", "MillerLoop", P4, Q4)}
 }
 
 func msmSubject(name, gn string, r *Rng, n int) *subject {
@@ -458,6 +480,21 @@ func bn254Subjects(r *Rng) []*subject {
 			err := v.UnmarshalBinary(vb)
 			return []any{err == nil, []bn254fr.Element(v)}
 		}})
+		// the asynchronous reader validates in several workers: a vector far longer than the number of CPUs
+		big1 := make(bn254fr.Vector, 1500)
+		for i := range big1 {
+			big1[i] = x3(uint64(i + 7))
+		}
+		bb, _ := big1.MarshalBinary()
+		subs = append(subs, &subject{name: "bn254.fr.Vector.AsyncReadFrom", shared: []any{bb}, run: func(int) any {
+			var v bn254fr.Vector
+			n, err, ch := v.AsyncReadFrom(bytes.NewReader(bb))
+			var e2 error
+			if ch != nil {
+				e2 = <-ch
+			}
+			return []any{int(n), err == nil, e2 == nil, []bn254fr.Element(v)}
+		}})
 		gt, _ := bn254.Pair([]bn254.G1Affine{g1GenAff()}, []bn254.G2Affine{g2GenAff()})
 		gb := gt.Bytes()
 		gtb := gb[:]
@@ -470,9 +507,10 @@ func bn254Subjects(r *Rng) []*subject {
 	// element functions going through the big.Int scratch pool
 	var x bn254fr.Element
 	x.SetUint64(123456789)
-	subs = append(subs, &subject{name: "bn254.fr.pooled", shared: []any{&x}, run: func(int) any {
+	negK := new(big.Int).Neg(new(big.Int).Lsh(big.NewInt(5), 70)) // a negative exponent shared by all callers (read-only)
+	subs = append(subs, &subject{name: "bn254.fr.pooled", shared: []any{&x, func() any { return negK.String() }}, run: func(int) any {
 		var a, b, c bn254fr.Element
-		a.Exp(x, big.NewInt(-5))
+		a.Exp(x, negK)
 		b.SetBigInt(new(big.Int).Lsh(big.NewInt(1), 300))
 		c.SetString("-17")
 		var d bn254fr.Element
